@@ -19,7 +19,7 @@ FEATURE_SETS = [
     None,
     {"union", "filter"}, {"graph", "filter"}, {"graph", "union"}, {"values", "union"}, {"values", "filter", "graph"},
     {"bind", "filter"}, {"sub", "order", "limit", "distinct"}, {"sub", "agg", "order"}, {"agg", "graph"}, {"agg", "union"},
-    {"from", "graph"}, {"from", "union", "distinct"}, {"order", "limit"}, {"distinct", "union", "values"},
+    {"from", "graph"}, {"graph", "sub"}, {"graph", "sub", "union"}, {"from", "union", "distinct"}, {"order", "limit"}, {"distinct", "union", "values"},
 ]
 
 
@@ -30,7 +30,12 @@ def gen_cases(seed, n):
         quads = G.gen_dataset(rng)
         feats = FEATURE_SETS[i % len(FEATURE_SETS)]
         g = G.Gen(rng, feats, quads)
-        q = g.select(rng.choice([1, 2, 2, 3]))
+        if i % 3 == 2:
+            # every operator nested in every other one, cycling through all ordered pairs
+            k = (i // 3) % (len(G.Gen.OPS) ** 2)
+            q = g.nested(G.Gen.OPS[k // len(G.Gen.OPS)], G.Gen.OPS[k % len(G.Gen.OPS)])
+        else:
+            q = g.select(rng.choice([1, 2, 2, 3]))
         text = G.pr_select(q)
         steps = G.setup_steps(quads) + [{"k": "query", "ep": "query", "text": text, "id": 1},
                                         {"k": "query", "ep": "volcano", "text": text, "id": 2}]
